@@ -1,7 +1,9 @@
 """C02 — genetic operators only produce well-formed, well-typed individuals.
 
 Lean: Vita/C02/{Model,Lemmas,Props}.lean (WF, operators as functions of explicit draws, decidable
-step relations, closure theorem).  Tie: relational refinement — harness/c02_ops.cc runs the REAL
+step relations, closure theorem).  Tie 1: tools/translate_mep_ops.py regenerates Vita/C02/Gen.lean (loop
+bounds, draw ranges, index expressions of the operators, from the clang AST) and Props.lean proves that
+they denote the model's operators (gen_*).  Tie 2: relational refinement — harness/c02_ops.cc runs the REAL
 operators (every crossover flavour forced through the VITA_VERIF hook) on real individuals and
 prints pre/post genomes; the compiled Lean driver decides `WF post` and the operator's `Step`
 relation for every observed call; an independent C++ oracle (well-formedness + provenance, written
@@ -13,8 +15,13 @@ import glob
 import json
 import os
 import re
+import sys
 
 from vlib import common as C
+
+sys.path.insert(0, os.path.join(C.ROOT, "tools"))
+import translate_mep_ops  # noqa: E402
+from cxx2lean import Refuse  # noqa: E402
 
 SAN = {"ASAN_OPTIONS": "detect_leaks=1:abort_on_error=0:exitcode=99:allocator_may_return_null=1",
        "UBSAN_OPTIONS": "print_stacktrace=1:halt_on_error=1:exitcode=98"}
@@ -100,9 +107,23 @@ def san_kind(stderr):
 
 def run(chk, replay=None):
     broken = []
+    # loop bounds / draw ranges / index expressions of the operators, from the clang AST of the current
+    # sources (Gen.lean); Props.lean proves (gen_*) that they denote the model's operators
+    gen_changed = False
+    try:
+        tables, gen_changed = translate_mep_ops.emit(os.path.join(C.LEAN, "Vita", "C02", "Gen.lean"))
+        chk.cov["translated"] = {"ctor_writes": len(tables["ctor"]), "destroy_writes": len(tables["destroy"]),
+                                 "crossover_cases": [n for _, n in tables["xoverCases"]],
+                                 "integer_draws": {k[6:]: len(tables[k]["draws"]) for k in tables if k.startswith("xover_")},
+                                 "gene_arg_bits": tables["geneArgs"]["bits"]}
+        chk.cov["gen_changed_vs_committed"] = bool(gen_changed)
+    except Refuse as e:
+        broken.append("tools/translate_mep_ops.py refuses the current sources (unknown shape of an operator): %s" % e)
     ok, msg = chk.prove("Vita.C02.Props", ["Vita.C02.Props", "c02_driver"])
     if not ok:
-        broken.append("theorems of Vita.C02.Props no longer check: " + msg)
+        broken.append(("the bounds extracted from the current C++ sources (Vita/C02/Gen.lean, regenerated) differ from "
+                       "the committed ones and the theorems of Vita.C02.Props no longer check: " if gen_changed else
+                       "theorems of Vita.C02.Props no longer check: ") + msg)
     drv_ok = os.path.exists(C.driver_path("c02_driver")) and C.lake_build(["c02_driver"])[0]
     if not drv_ok:
         broken.append("the C02 driver does not build")
@@ -337,11 +358,13 @@ def run(chk, replay=None):
 
     return chk.finish(
         level="proof",
-        checker_cmd="lake build Vita.C02.Props c02_driver && lake env lean <#print axioms for every theorem>",
+        checker_cmd="python3 tools/translate_mep_ops.py > lean/Vita/C02/Gen.lean && lake build Vita.C02.Props c02_driver && "
+                    "lake env lean <#print axioms for every theorem>",
         rule="one evaluation = one real operator call (random construction, mutation, 4 crossover flavours, "
              "get_block, replace, destroy_block, cse, team construction/mutation/crossover) whose pre/post genomes "
              "are judged by the Lean driver (WF + Step relation), by the C++ oracle and by execution under "
              "ASan/UBSan; distinct = distinct request lines whose result differs from its operand(s)",
-        trusted=["Lean 4.33 kernel", "harness/c02_ops.cc (printing of genomes through operator[] / best() / age() / "
-                 "the VITA_VERIF flavour accessor)", "hand-written model Vita/C02/Model.lean (tied by the relational "
-                 "check only)", "g++ 12 ASan/UBSan", "contracts of std::uniform_int_distribution / bernoulli_distribution"])
+        trusted=["Lean 4.33 kernel", "tools/translate_mep_ops.py + cxx2lean.py (clang-14 JSON AST -> loop bounds, draw ranges, "
+                 "index expressions; shapes it does not know are refused)", "harness/c02_ops.cc (printing of genomes through operator[] / best() / age() / "
+                 "the VITA_VERIF flavour accessor)", "hand-written model Vita/C02/Model.lean (bounds and index expressions tied by translation + "
+                 "gen_* theorems, the rest by the relational check)", "g++ 12 ASan/UBSan", "contracts of std::uniform_int_distribution / bernoulli_distribution"])
